@@ -2092,14 +2092,45 @@ class Engine:
         library's `re` is applied to the literals)"""
         import re
         flags = 0
-        if kw:
-            return NotImplemented
+        count = 0
 
         def lit(v):
             return v.s if isinstance(v, Lit) else None
         pat = None
         meth = None
         rest = None
+        if kw:
+            # keywords are mapped onto the signature of the `re` function / pattern method: pattern=, repl=, string=, count=, flags=
+            fattr = node.func.attr if isinstance(node.func, ast.Attribute) else None
+            modlevel = name is not None and name.startswith("re.")
+            if modlevel:
+                sig = {"compile": ("pattern", "flags"), "sub": ("pattern", "repl", "string", "count", "flags"), "match": ("pattern", "string", "flags"),
+                       "search": ("pattern", "string", "flags"), "fullmatch": ("pattern", "string", "flags")}.get(name[3:])
+            else:
+                sig = {"sub": ("repl", "string", "count"), "match": ("string",), "search": ("string",), "fullmatch": ("string",)}.get(fattr)
+            if sig is None or any(k not in sig[len(args):] for k in kw):
+                return NotImplemented
+            full = list(args) + [kw.get(k) for k in sig[len(args):]]
+            while full and full[-1] is None:
+                full.pop()
+            if any(a is None for a in full):
+                return NotImplemented
+            args = full
+        # trailing count / flags of re.sub, count of pattern.sub, flags of re.compile / re.match ...: concrete integers only
+        if name is not None and name.startswith("re.") and name[3:] in ("compile", "sub", "match", "search", "fullmatch"):
+            npos = {"compile": 1, "sub": 3, "match": 2, "search": 2, "fullmatch": 2}[name[3:]]
+            extra, args = list(args[npos:]), list(args[:npos])
+            if name[3:] == "sub" and extra:
+                count = as_int(extra.pop(0))
+            if extra:
+                flags = self._re_flags(extra.pop(0))
+            if extra or count is None or count < 0 or flags is None:
+                return Unk("regular expression: count / flags that are not concrete")
+        elif isinstance(node.func, ast.Attribute) and node.func.attr == "sub" and len(args) == 3:
+            count = as_int(args[2])
+            args = list(args[:2])
+            if count is None or count < 0:
+                return Unk("regular expression: count that is not concrete")
         if isinstance(node.func, ast.Attribute) and node.func.attr in ("group", "start", "end", "groups", "span"):
             recv = self._ev(node.func.value, st)
             if isinstance(recv, Const) and isinstance(recv.value, re.Match):
@@ -2113,12 +2144,12 @@ class Engine:
                     return Tup(tuple(conv(x) for x in r)) if isinstance(r, tuple) else conv(r)
         if name in ("re.compile",) and args and lit(args[0]) is not None and len(args) == 1:
             try:
-                return Const(re.compile(args[0].s))
+                return Const(re.compile(args[0].s, flags))
             except re.error:
                 return Unk("regular expression")
         if name is not None and name.startswith("re.") and name[3:] in ("sub", "match", "search", "fullmatch") and args and lit(args[0]) is not None:
             try:
-                pat = re.compile(args[0].s)
+                pat = re.compile(args[0].s, flags)
             except re.error:
                 return Unk("regular expression")
             meth, rest = name[3:], args[1:]
@@ -2136,20 +2167,29 @@ class Engine:
                     raise Unsupported("replacement function")
                 return r.s
             try:
-                return Lit(pat.sub(repl, rest[1].s))
+                return Lit(pat.sub(repl, rest[1].s, count))
             except (Unsupported, re.error):
                 return Unk("regular expression with a replacement function that is not followed")
         if not all(lit(a) is not None for a in rest):
             return Unk("regular expression on non-literal text")
         try:
             if meth == "sub" and len(rest) == 2:
-                return Lit(pat.sub(rest[0].s, rest[1].s))
+                return Lit(pat.sub(rest[0].s, rest[1].s, count))
             if meth in ("match", "search", "fullmatch") and len(rest) == 1:
                 m = getattr(pat, meth)(rest[0].s)
                 return Const(None) if m is None else Const(m)
         except re.error:
             return Unk("regular expression")
         return NotImplemented
+
+    @staticmethod
+    def _re_flags(v):
+        """flags argument of a `re` call as an integer: a concrete number, or re.I / re.X ... (and their `|`) evaluated to the library's
+        constants; None when it is not concrete"""
+        import re
+        if isinstance(v, Const) and isinstance(v.value, (int, re.RegexFlag)) and not isinstance(v.value, bool):
+            return int(v.value)
+        return as_int(v)
 
     def str_method(self, recv, meth, args, kw, st):
         if isinstance(recv, Choice):
